@@ -33,6 +33,9 @@ def load_contracts():
         sys.path.insert(0, VERIF)
     if REPO not in sys.path:
         sys.path.insert(0, REPO)
+    from spec import stubs
+
+    stubs.install()  # before any pyscsi device module is imported
     import pyscsi
 
     assert os.path.abspath(pyscsi.__file__).startswith(os.path.abspath(REPO) + os.sep), \
